@@ -69,6 +69,10 @@ def generate(chk, quick, seed):
                             schemas=("none",), maxcte=0),
                 "generate: subqueries in ON conditions, nested set operations", workers=1, coverage=False, timeout=5000)
     cases += [c for c in r.cases("CASE") if any(e["e"] in ("on", "ubranch") for e in c["prog"])]
+    r = chk.tlc("Stmt", cfg(chk, "genw", 8, kinds=("update", "merge", "delete"), known=ALL_DEV, emit=True, clauses={"where"}, tbl=("a",), ctes=("x",),
+                            maxrel=2),
+                "generate: WITH in front of UPDATE / MERGE / DELETE", workers=1, coverage=False, timeout=5000)
+    cases += [c for c in r.cases("CASE") if any(e["e"] == "cte" for e in c["prog"])]
     n_exh = len(cases)
     r = chk.tlc("Stmt", cfg(chk, "gensim", 16, known=ALL_DEV, emit=True, maxdepth=4, maxrel=3, maxcte=2, invariants=["EmitCase"], clauses=EVERY_CLAUSE),
                 "generate: simulated deeper programs (depth 4)", workers=1, coverage=False,
@@ -110,6 +114,8 @@ def prog_features(prog):
             stack.append(False)
             if k in ("having", "isub", "where"):
                 f.add(k + "_subquery")
+        if k == "cte" and prog[0]["a"] in ("update", "merge", "delete"):
+            f.add("with_in_front_of_" + prog[0]["a"])
         if k == "union":
             stack[-1] = False
             f.add("union")
